@@ -606,6 +606,15 @@ lemma of `FnRegistry` at stage P.  **The responder over the translated readers**
 translated `async_get_infos_type`, `async_get_infos_server`, `async_get_info_name`, `async_get_types` on the generated object, and
 `respondG_eq` proves it computes the model's answers under `RInv`.  Hence `C03_answers_sound_source`, `C03_answers_complete_source`
 and, along every history of API calls on a fresh generated registry, `C03_history_source`.
+**A raise site discharged by pins, not by the type**: the spec types `ServiceInfo.server_key` as a string (the model's `Svc.server :
+String`), so `assert info.server_key is not None` in `_add` / `_remove` is `pyAssert true` in the generated functions and
+`C03_registry_is_source` quantifies over infos that *have* a server.  That precondition is discharged for the library's own call paths by
+the source pins of `tools/fnspecs/registry.py` (`tools/fn_pins.py`, stage T; listed in the header of `GenFn/Registry.lean`): every
+`registry.async_add / async_update / async_remove(x)` is in `_core.py` and dominated in the same function by
+`x.set_server_if_missing()` (a revert of the D26 repair fails the pin), `set_server_if_missing` sets `server` / `server_key` when there
+is none, `server_key` is assigned only as `server.lower()` right after `server`, `key` only as `name.lower()` right after `_name`; and no
+mapped class defines `__bool__` / `__len__` (the specs' `always_truthy`).  A caller *outside* the library that hands the registry a
+server-less `ServiceInfo` directly is outside this statement.
 **What it does not**: strategy selection and `_answer_question` themselves are hand-written models around the translated readers; the
 memo warming of `respond` (its second component) and the host runs over `HostOp` (transmissions) are not restated. -/
 section Tie
